@@ -173,9 +173,38 @@ def r4_breakpoint_suppression_balanced(ctx, F):
     ctx.floor("C18.R4", "suppression counter increments in the debugger", n, 1)
 
 
+def r5_breakpoints_keyed_by_position(ctx, F):
+    """breakpoints arrive from the client as positions in a file and are resolved against whatever parse of that file
+    the adapter is given; the program that later runs may be a different parse (or a function of a loaded, frozen
+    module). The lookup table must therefore be keyed by position (file name + Span). CodeMap - and FileSpan, which
+    contains one - compare and hash by the identity of the parse, so a table keyed by them only matches when the very
+    same AstModule object is resolved and evaluated: breakpoints elsewhere are silently never hit."""
+    n = 0
+    for f in F.fns.values():
+        if f.crate != "starlark" or "src/debug/" not in f.span:
+            continue
+        for c in f.calls:
+            if c.indirect or c.bb in f.cleanup:
+                continue
+            m = re.search(r"(HashMap|HashSet|BTreeMap|BTreeSet|SmallMap|SmallSet)(::)?<\s*(starlark_syntax::)?codemap::"
+                          r"(FileSpan|CodeMap)\b", c.full)
+            if m:
+                n += 1
+                ctx.bad("C18.R5", "debugger-table-keyed-by-parse-identity:%s:%s" % (short_fn(top_fn(F, f).qpath), m.group(4)),
+                        "`%s` uses a %s keyed by %s in the debugger: the key compares by CodeMap identity, so entries "
+                        "resolved from one parse of a file never match statements of another parse / of a loaded module"
+                        % (short_fn(top_fn(F, f).qpath), m.group(1), m.group(4)), fn=f, line=c.line)
+    spans = sum(1 for f in F.fns.values() if f.crate == "starlark" and "src/debug/" in f.span for c in f.calls
+                if re.search(r"(HashMap|HashSet)(::)?<\s*(starlark_syntax::)?codemap::Span\b", c.full))
+    ctx.check(n == 0 and spans >= 1, "C18.R5", "breakpoint-table-keyed-by-span",
+              "the debugger's tables are keyed by Span (position), %d uses" % spans,
+              "the debugger no longer keeps a table keyed by codemap::Span (found %d)" % spans)
+
+
 def run(ctx):
     F = ctx.facts("core")
     r4_breakpoint_suppression_balanced(ctx, F)
+    r5_breakpoints_keyed_by_position(ctx, F)
     r1(ctx, F)
     r2(ctx, F)
     r3(ctx, F)
